@@ -1040,12 +1040,15 @@ def rf66(run):
                         e = e['c'][0]
                         continue
                     # element of a pointed-to array: the pointee type decides
-                    if bt is not None and PS.search(bt.s) and 'MIR_insn' not in bt.s:
+                    pt = tu.type(bt.pointee) if bt is not None and bt.kind == 'ptr' and bt.pointee is not None else None
+                    if pt is not None and pt.kind not in ('ptr',) and PS.search(bt.s) and 'MIR_insn' not in bt.s:
                         hit = (first_field or '[]', bt.s)
                     break
                 if e['k'] == 'UnaryOperator' and e['op'] == '*':
                     bt = tu.type(F.strip(e['c'][0]))
-                    if bt is not None and PS.search(bt.s) and 'MIR_insn' not in bt.s and bt.kind == 'ptr':
+                    pt = tu.type(bt.pointee) if bt is not None and bt.kind == 'ptr' and bt.pointee is not None else None
+                    # `*out = item` through a MIR_item_t * out-parameter stores a pointer variable, not a descriptor
+                    if pt is not None and pt.kind not in ('ptr',) and PS.search(bt.s) and 'MIR_insn' not in bt.s:
                         hit = (first_field or '*', bt.s)
                     break
                 break
